@@ -27,6 +27,7 @@ var (
 	c10A   = common.HexToAddress("0x00000000000000000000000000000000000a000a")
 	c10B   = common.HexToAddress("0x00000000000000000000000000000000000b000b")
 	c10C   = common.HexToAddress("0x00000000000000000000000000000000000c0c0c") // forwarder contract
+	c10D   = common.HexToAddress("0x00000000000000000000000000000000000d0d0d") // multicall contract: several precompile calls in one message
 	c10F   = world.ModuleAddr(authtypes.FeeCollectorName)
 	zeroA  = common.Address{}
 	maxU   = new(big.Int).Sub(new(big.Int).Lsh(big.NewInt(1), 256), big.NewInt(1))
@@ -58,6 +59,8 @@ func c10Addr(n string) common.Address {
 		return c10B
 	case "C":
 		return c10C
+	case "D":
+		return c10D
 	case "F":
 		return c10F
 	case "0", "":
@@ -136,6 +139,7 @@ type c10World struct {
 	tracked       []common.Address
 	viewCache     map[[32]byte]*c10Views
 	viewsObserved int
+	skipViews     bool // batch mode: views are compared once, after the last call of the message
 }
 
 func c10Setup() *c10World {
@@ -148,7 +152,7 @@ func c10Setup() *c10World {
 			{Account: authtypes.NewBaseAccount(c10A.Bytes(), nil, 0, 1), Coins: coins(3)},
 			{Account: authtypes.NewBaseAccount(c10B.Bytes(), nil, 0, 1), Coins: coins(1)},
 		},
-		Contracts: []world.Contract{{Addr: c10C, Code: asm.Forwarder(false)}},
+		Contracts: []world.Contract{{Addr: c10C, Code: asm.Forwarder(false)}, {Addr: c10D, Code: asm.Multicall(), Coins: coins(2)}},
 	})
 	w.Block(nil)
 	cw := &c10World{w: w, root: w.Ctx(), viewCache: map[[32]byte]*c10Views{}}
@@ -159,7 +163,7 @@ func c10Setup() *c10World {
 		}
 		cw.tokens[i] = addr
 	}
-	cw.tracked = []common.Address{c10A, c10B, c10C, c10F, zeroA, world.ModuleAddr(cpctypes.ModuleName)}
+	cw.tracked = []common.Address{c10A, c10B, c10C, c10D, c10F, zeroA, world.ModuleAddr(cpctypes.ModuleName)}
 	return cw
 }
 
@@ -373,8 +377,8 @@ func (cw *c10World) observe(ctx sdk.Context, key [32]byte) *c10Views {
 		}
 		v.Supply[t] = cw.w.Supply(ctx, d)
 		v.Total[t] = view(Enc("totalSupply()"))
-		for _, o := range []common.Address{c10A, c10B, c10C} {
-			for _, s := range []common.Address{c10A, c10B, c10C} {
+		for _, o := range []common.Address{c10A, c10B, c10C, c10D} {
+			for _, s := range []common.Address{c10A, c10B, c10C, c10D} {
 				v.Allow[t][[2]common.Address{o, s}] = view(Enc("allowance(address,address)", AddrWord(o), AddrWord(s)))
 			}
 		}
@@ -386,6 +390,9 @@ func (cw *c10World) observe(ctx sdk.Context, key [32]byte) *c10Views {
 
 // views compares every view method and the bank keeper with the model, for both tokens.
 func (cw *c10World) views(m *c10Model, ctx sdk.Context, key [32]byte) []string {
+	if cw.skipViews {
+		return nil
+	}
 	var bad []string
 	v := cw.observe(ctx, key)
 	for t := range c10Den {
@@ -407,8 +414,8 @@ func (cw *c10World) views(m *c10Model, ctx sdk.Context, key [32]byte) []string {
 		if v.Total[t].Cmp(v.Supply[t]) != 0 {
 			bad = append(bad, fmt.Sprintf("totalSupply T%d=%s, bank %s", t, v.Total[t], v.Supply[t]))
 		}
-		for _, o := range []common.Address{c10A, c10B, c10C} {
-			for _, s := range []common.Address{c10A, c10B, c10C} {
+		for _, o := range []common.Address{c10A, c10B, c10C, c10D} {
+			for _, s := range []common.Address{c10A, c10B, c10C, c10D} {
 				if x := v.Allow[t][[2]common.Address{o, s}]; x.Cmp(m.allow(t, o, s)) != 0 {
 					bad = append(bad, fmt.Sprintf("allowance T%d[%s→%s]=%s, reference %s", t, o.Hex()[36:], s.Hex()[36:], x, m.allow(t, o, s)))
 				}
@@ -575,6 +582,150 @@ func c10Search(run *ev.Run, cw *c10World, alpha []c10Op, maxDepth int, shard, n 
 	return false, depthDone
 }
 
+// ---------------------------------------------------------------------------------------------------------------
+// batch pass: several precompile calls inside ONE EVM message (multicall contract D is the caller of every call).
+// Logs stay referenced by the StateDB until the message ends, so "exactly one matching log per successful call" must
+// also hold for the log list read at the end of the message; intermediate states are not observable, the views are
+// compared once after the last call.
+// ---------------------------------------------------------------------------------------------------------------
+
+type c10Batch struct {
+	Prefix c10Path `json:"prefix"` // ordinary operations executed first (one message each)
+	Calls  []c10Op `json:"calls"`  // executed by D in one message; Caller is "D"
+}
+
+func c10OpData(cw *c10World, op c10Op) (common.Address, []byte) {
+	tok := cw.tokens[op.Token]
+	switch op.Method {
+	case "transfer":
+		return tok, Enc("transfer(address,uint256)", AddrWord(c10Addr(op.X)), Word(c10Amt(op.Amt)))
+	case "transferFrom":
+		return tok, Enc("transferFrom(address,address,uint256)", AddrWord(c10Addr(op.X)), AddrWord(c10Addr(op.Y)), Word(c10Amt(op.Amt)))
+	case "approve":
+		return tok, Enc("approve(address,uint256)", AddrWord(c10Addr(op.X)), Word(c10Amt(op.Amt)))
+	case "burn":
+		return tok, Enc("burn(uint256)", Word(c10Amt(op.Amt)))
+	case "burnFrom":
+		return tok, Enc("burnFrom(address,uint256)", AddrWord(c10Addr(op.X)), Word(c10Amt(op.Amt)))
+	}
+	panic("method " + op.Method)
+}
+
+func (cw *c10World) runBatch(b c10Batch) (fs []ev.Finding) {
+	ctx := cw.root
+	mf, ms := cw.initialModel(false), cw.initialModel(true)
+	for _, op := range b.Prefix {
+		nctx, o := cw.exec(ctx, op)
+		key := CanonKey(cw.w, nctx)
+		cw.check(mf, op, o, nctx, key)
+		cw.check(ms, op, o, nctx, key)
+		ctx = nctx
+	}
+	var entries []asm.MulticallEntry
+	for _, op := range b.Calls {
+		to, data := c10OpData(cw, op)
+		entries = append(entries, asm.MulticallEntry{To: to, Data: data})
+	}
+	data, offs := asm.MulticallData(entries)
+	post, _ := ctx.CacheContext()
+	res := CallEVM(cw.w, post, c10A, c10D, data, nil, 3_000_000)
+	var bf, bs []string
+	if res.Err != nil || res.Panic != "" || len(res.Ret) != len(data) {
+		bf = append(bf, fmt.Sprintf("multicall message failed: err=%v panic=%q ret=%d bytes", res.Err, res.Panic, len(res.Ret)))
+		bs = bf
+	} else {
+		logs := res.Logs
+		cw.skipViews = true
+		for i, op := range b.Calls {
+			o := c10Obs{Caller: c10D, Success: res.Ret[offs[i]] == 1}
+			if o.Success {
+				o.Res.Ret = Word(big.NewInt(1)) // the multicall contract does not hand the inner return data back
+				if len(logs) > 0 {
+					o.Res.Logs, logs = logs[:1], logs[1:]
+				}
+			} else {
+				o.Res.Err = fmt.Errorf("inner call %d failed", i)
+			}
+			for _, x := range cw.check(mf, op, o, post, [32]byte{}) {
+				bf = append(bf, fmt.Sprintf("call %d (%s): %s", i, op, x))
+			}
+			for _, x := range cw.check(ms, op, o, post, [32]byte{}) {
+				bs = append(bs, fmt.Sprintf("call %d (%s): %s", i, op, x))
+			}
+		}
+		cw.skipViews = false
+		if len(logs) > 0 {
+			bf = append(bf, fmt.Sprintf("%d log(s) more than successful calls: %s", len(logs), fmtLogs(logs)))
+			bs = append(bs, bf[len(bf)-1])
+		}
+		key := CanonKey(cw.w, post)
+		bf = append(bf, cw.views(mf, post, key)...)
+		bs = append(bs, cw.views(ms, post, key)...)
+	}
+	if len(bf) == 0 {
+		return nil
+	}
+	var names []string
+	for _, o := range b.Prefix {
+		names = append(names, o.String())
+	}
+	var calls []string
+	for _, o := range b.Calls {
+		calls = append(calls, o.String())
+	}
+	f := ev.Finding{Clause: "erc20-exact-view", Detail: strings.Join(names, " ; ") + " ; one message {" + strings.Join(calls, " , ") + "} => " + strings.Join(bf, " | "), Replay: map[string]interface{}{"batch": b}}
+	if len(bs) == 0 {
+		f.Signature = "C10/allowance-shared-across-tokens"
+	}
+	if len(f.Detail) > 900 {
+		f.Detail = f.Detail[:900] + "…"
+	}
+	return []ev.Finding{f}
+}
+
+// c10Batches enumerates prefix x ordered pairs (thorough: also triples over a smaller set) of calls made by D.
+func c10Batches(thorough bool) []c10Batch {
+	var alpha []c10Op
+	for t := 0; t < 2; t++ {
+		alpha = append(alpha,
+			c10Op{Token: t, Caller: "D", Method: "transfer", X: "A", Amt: "1"},
+			c10Op{Token: t, Caller: "D", Method: "transfer", X: "B", Amt: "2"},
+			c10Op{Token: t, Caller: "D", Method: "transfer", X: "B", Amt: "4"}, // more than D holds: fails
+			c10Op{Token: t, Caller: "D", Method: "approve", X: "A", Amt: "1"},
+			c10Op{Token: t, Caller: "D", Method: "approve", X: "B", Amt: "2"},
+			c10Op{Token: t, Caller: "D", Method: "transferFrom", X: "A", Y: "B", Amt: "1"},
+			c10Op{Token: t, Caller: "D", Method: "transferFrom", X: "A", Y: "D", Amt: "2"},
+			c10Op{Token: t, Caller: "D", Method: "burn", Amt: "1"},
+			c10Op{Token: t, Caller: "D", Method: "burnFrom", X: "A", Amt: "1"},
+		)
+	}
+	prefixes := []c10Path{nil,
+		{c10Op{Token: 0, Caller: "A", Method: "approve", X: "D", Amt: "2"}},
+		{c10Op{Token: 1, Caller: "A", Method: "approve", X: "D", Amt: "max"}},
+	}
+	var out []c10Batch
+	for _, p := range prefixes {
+		for _, a := range alpha {
+			for _, b := range alpha {
+				out = append(out, c10Batch{Prefix: p, Calls: []c10Op{a, b}})
+			}
+		}
+	}
+	if thorough {
+		small := []c10Op{alpha[0], alpha[1], alpha[3], alpha[5], alpha[7], alpha[9], alpha[14]}
+		for _, p := range prefixes {
+			for _, a := range small {
+				for _, b := range small {
+					for _, c := range small {
+						out = append(out, c10Batch{Prefix: p, Calls: []c10Op{a, b, c}})
+					}
+				}
+			}
+		}
+	}
+	return out
+}
+
 func runC10(replay string) int {
 	run := ev.NewRun("C10", "model_checking")
 	run.Assumptions = []string{
@@ -586,11 +737,15 @@ func runC10(replay string) int {
 	if replay != "" {
 		return replayCase(run, replay, func(raw json.RawMessage) []ev.Finding {
 			var c struct {
-				Path c10Path `json:"path"`
+				Path  c10Path   `json:"path"`
+				Batch *c10Batch `json:"batch"`
 			}
 			if err := json.Unmarshal(raw, &c); err != nil {
 				fmt.Fprintln(os.Stderr, err)
 				os.Exit(2)
+			}
+			if c.Batch != nil {
+				return cw.runBatch(*c.Batch)
 			}
 			return cw.runPath(c.Path, true)
 		})
@@ -627,6 +782,38 @@ func runC10(replay string) int {
 			run.Coverage[sr.name+"_alphabet_depth_completed"] = d
 			run.Coverage[sr.name+"_alphabet_fixpoint"] = fp
 		}
+		batches := c10Batches(run.Thorough())
+		okCalls := 0
+		for i, b := range batches {
+			if i%n != shard {
+				continue
+			}
+			fs := cw.runBatch(b)
+			for _, f := range fs {
+				run.Fail(f)
+			}
+			run.Count("transitions", 1)
+			run.Count("batch_messages", 1)
+			if len(fs) == 0 {
+				okCalls++
+			}
+			if i < 2 {
+				run.Sample(map[string]interface{}{"batch": b})
+			}
+		}
+		if shard == 0 {
+			// non-vacuity: a message with two successful transfers must produce two distinct matching logs
+			b := c10Batch{Calls: []c10Op{{Token: 0, Caller: "D", Method: "transfer", X: "A", Amt: "1"}, {Token: 0, Caller: "D", Method: "transfer", X: "B", Amt: "1"}}}
+			to, d0 := c10OpData(cw, b.Calls[0])
+			_, d1 := c10OpData(cw, b.Calls[1])
+			data, offs := asm.MulticallData([]asm.MulticallEntry{{To: to, Data: d0}, {To: to, Data: d1}})
+			ctx, _ := cw.root.CacheContext()
+			r := CallEVM(cw.w, ctx, c10A, c10D, data, nil, 3_000_000)
+			if r.Err != nil || len(r.Ret) != len(data) || r.Ret[offs[0]] != 1 || r.Ret[offs[1]] != 1 || len(r.Logs) != 2 {
+				fmt.Fprintf(os.Stderr, "HARNESS: C10 batch sanity failed: err=%v ret=%x logs=%d\n", r.Err, r.Ret, len(r.Logs))
+				os.Exit(2)
+			}
+		}
 		if shard == 0 {
 			// determinism self-check: a sample path replays to the same verdict twice
 			p := c10Path{full[0], full[len(full)/2]}
@@ -646,6 +833,6 @@ func runC10(replay string) int {
 	if _, ok := run.Coverage["exhaustive"]; !ok {
 		run.Coverage["exhaustive"] = true
 	}
-	run.Coverage["rule"] = "BFS over branch states (CacheContext tree) of a world with two ERC-20 precompiles (wei, utwo), holders A=3 B=1, forwarder contract C; alphabets: full = 2 tokens × callers {A,B,C by CALL,C by DELEGATECALL} × transfer/transferFrom/approve/burn/burnFrom × addresses {A,B,C,0,fee collector} × amounts {0,1,2,4,2^256−1} + native bank sends; reduced = 3 callers × amounts {1,2,max} × addresses {A,B,0}; tiny = approve(1|max)/transferFrom/burnFrom/transfer between A and B on both tokens. Searches: " + strings.Join(desc, "; ") + ". Sharded on the first operation; every view of both tokens and the bank keeper is compared with the reference in every distinct state. states = distinct canonical state keys"
+	run.Coverage["rule"] = "BFS over branch states (CacheContext tree) of a world with two ERC-20 precompiles (wei, utwo), holders A=3 B=1, forwarder contract C; alphabets: full = 2 tokens × callers {A,B,C by CALL,C by DELEGATECALL} × transfer/transferFrom/approve/burn/burnFrom × addresses {A,B,C,0,fee collector} × amounts {0,1,2,4,2^256−1} + native bank sends; reduced = 3 callers × amounts {1,2,max} × addresses {A,B,0}; tiny = approve(1|max)/transferFrom/burnFrom/transfer between A and B on both tokens. Searches: " + strings.Join(desc, "; ") + ". Batch pass: multicall contract D (2 of each token) makes 2 (thorough: also 3) precompile calls inside one message, after prefixes {none, A approves D 2 on T0, A approves D max on T1}: all ordered pairs over an 18-call alphabet; the log list read at the end of the message must hold exactly one matching log per successful call, in order. Sharded on the first operation; every view of both tokens and the bank keeper is compared with the reference in every distinct state. states = distinct canonical state keys"
 	return run.Finish()
 }
